@@ -40,8 +40,24 @@ PROPS = {
         ],
         "technique": "Lean 4 theorems (List.Perm invariance, sorting uniqueness) over executable models + correspondence with the real functions + fresh-process differential runs of the real binary",
     },
+    "C38": {
+        "harness": "vh-tools",
+        "runner": "checklib/run/tools_c38.py",
+        "gen": ["tools_autotrait"],
+        "timeout": 1500,
+        "level_text": "PARTIAL. Static part, kernel-checked: an executable Lean model of Rust's auto-trait derivation (struct/enum: all fields; rules for Arc, Mutex, RwLock, Cell/RefCell, references, owning containers; leaf table for std/third-party types; generic definitions monomorphised; recursion handled coinductively as the greatest consistent assignment, with a general monotonicity/greatest-fixpoint lemma) is evaluated by decide +kernel on the field graph of EmmyLuaAnalysis extracted from the source text on every run (217 instantiated types): every component type is Send and Sync by derivation from its fields, EmmyLuaAnalysis included, and no type the analysis holds carries a manual unsafe impl. The derivation is cross-checked with rustc through hook H6 in both directions (positive assertions for all component types, negative ones for the rowan cursor types); a disagreement breaks the harness build or the Lean theorems. Dynamic part (search): many threads query one shared Arc<EmmyLuaAnalysis> (diagnostics + semantic info of every name token of every file) simultaneously; answers equal the sequential ones.",
+        "level_note": "Partial: data races inside unsafe code of dependencies (rowan green tree, smol_str, internment, hashbrown, regex) are not modelled — these types are leaves with the verdict their crates declare; thread interleavings of the real runtime are searched, not proved. SemanticModel (per query, not held by the analysis) is not Send/Sync by derivation and keeps its unsafe impl: outside the claim, recorded in notes. Trusted: Lean kernel, the python extractor (struct/enum parser, leaf table), rustc for the H6 assertions.",
+        "trusted_base": TOOLS_TB + ["checklib/gen/tools_autotrait.py: Rust struct/enum/alias field extractor and the leaf/container table (std, rowan, smol_str, internment, regex, lsp types)"],
+        "assumptions": [
+            "leaf table verdicts match the crates' own Send/Sync impls (GreenNode, NodeCache, SmolStr, ArcIntern, Regex: Send + Sync; rowan SyntaxNode: neither)",
+            "every type definition reachable from EmmyLuaAnalysis lives in emmylua_code_analysis or emmylua_parser or the leaf table (the extractor fails on an unknown name)",
+            "cfg-conditional fields are all included (union over cfgs)",
+        ],
+        "technique": "Lean 4 model of auto-trait derivation + decide +kernel over the extracted graph + general greatest-fixpoint lemma; rustc cross-check via compile-time assertions; multi-threaded differential search",
+    },
 }
 
 HOOK_COMMITS = [
     "a22ac47 verif hook: emmylua_check feature verif re-exports output_result (report/exit-code routine)",
+    "3305d23 verif hook: H6 compile-time Send+Sync assertions for every component type of EmmyLuaAnalysis (feature verif)",
 ]
